@@ -480,7 +480,7 @@ Definition ps_next (ps : pstate) (o : op) (ob : obs) (dg : digest) : pstate :=
   mkps dg (update_views pd dg ob ps.(ps_view)) (filter (fun e => live dg (fst e)) q2).
 
 (* clause numbers reported with a failure *)
-Definition check_step (which : N) (cfg : pcfg) (ps : pstate) (o : op) (ob : obs) (dg : digest) : N :=
+Definition check_step (which : N) (cfg : pcfg) (last : bool) (ps : pstate) (o : op) (ob : obs) (dg : digest) : N :=
   let pd := ps.(ps_prev) in
   let nb := nlen cfg.(pc_limits) in
   let views := update_views pd dg ob ps.(ps_view) in
@@ -488,7 +488,9 @@ Definition check_step (which : N) (cfg : pcfg) (ps : pstate) (o : op) (ob : obs)
   | 1 => if step_C01 nb pd o ob dg then 0 else 1
   | 3 => if step_C03 pd o ob dg then 0 else 1
   | 4 => if negb (digest_C04 dg) then 1
-         else if cfg.(pc_quiescent) && negb (observers_ok dg views) then 2 else 0
+         (* observers are compared once activity stopped: after every op in the quiescent
+            semantics, at the end of a history with explicit deliveries *)
+         else if (cfg.(pc_quiescent) || last) && negb (observers_ok dg views) then 2 else 0
   | 5 => if negb cfg.(pc_quiescent) || step_C05 pd o ob then 0 else 1
   | 6 => if negb cfg.(pc_quiescent) || step_C06 ps o ob dg then 0 else 1
   | 7 => if digest_C07 cfg.(pc_limits) dg then 0 else 1
@@ -502,7 +504,7 @@ Fixpoint check_trace (which : N) (cfg : pcfg) (i : N) (ps : pstate) (tr : trace)
   match tr with
   | [] => None
   | (o, ob, dg) :: r =>
-      match check_step which cfg ps o ob dg with
+      match check_step which cfg (match r with [] => true | _ => false end) ps o ob dg with
       | 0 => check_trace which cfg (i + 1) (ps_next ps o ob dg) r
       | clause => Some (i, clause)
       end
